@@ -292,7 +292,18 @@ def _entry_or_insert(eng, st, args, dty, callee, m):
         s2, dv = eng.call_closure(st, args[1], [])
         _adopt(st, s2)
     else:
-        raise SymError("Entry::or_default needs a typed default")
+        # V::default() of the map's value type (last generic argument of Entry<'_, K, V>)
+        from mir import split_top
+
+        gm = re.search(r"Entry::<(.*)>::or_default", callee)
+        vty = split_top(gm.group(1))[-1].strip() if gm else None
+        if not vty:
+            raise SymError("Entry::or_default: cannot determine the value type")
+        r = eng.dispatch(st, f"<{vty} as Default>::default", [], None, None, None)
+        if r is None:
+            raise SymError("Default::default diverges")
+        s2, dv = r
+        _adopt(st, s2)
     cur = _map_select(mp, k)
     newv = dv if (cur is None or z3.is_false(pres)) else merge(pres, cur, dv)
     newval = _map_store(mp, k, newv)
